@@ -425,12 +425,15 @@ def inject(rng, lines, kind):
         return L, "save-to-zero", "addi zero, a0, 1"
     if kind == "dead-assignment":
         i = rng.randrange(2, main_end - 1)
-        L.insert(i, "li t6, 77")
-        return L, "dead-assignment", "li t6, 77"
+        L.insert(i, "li s11, 77")       # main never reads s11: the value is dead (and clobbers no live temporary)
+        return L, "dead-assignment", "li s11, 77"
     if kind == "unknown-ecall":
-        i = rng.randrange(2, main_end - 1)
-        L[i:i] = ["addi a7, a0, 3", "ecall", "li a0, 0"]
-        return L, "unknown-ecall", "ecall"
+        calls = [i for i in range(main_end) if L[i].startswith(("jal", "call"))]
+        if not calls:
+            return None
+        i = calls[-1] + 1                 # a0 is whatever the callee returned: not a constant
+        L[i:i] = ["add a7, a0, a0", "ecall", "li a0, 0"]
+        return L, "unknown-ecall", "add a7, a0, a0\necall"
     if kind == "invalid-segment":
         i = rng.randrange(2, main_end - 1)
         L[i:i] = [".data", "addi a0, a0, 1", ".text"]
@@ -524,3 +527,70 @@ def random_flow(rng, n=None):
             if rng.random() < 0.8:
                 lines.append(rng.choice(["ret", "li a7, 10", "addi a0, a0, 1", "ecall"]))
     return "\n".join(lines) + "\n"
+
+
+def stack_fuzz(rng):
+    """a function that hammers its frame with word/half/byte stores and loads, constants, a callee with its own
+    frame, and ecalls - the value analysis has to keep (or give up) every slot claim correctly"""
+    frame = rng.choice([16, 32])
+    L = ["main:", "li a0, 3", "jal f", "li a7, 10", "ecall", "f:", "addi sp, sp, -%d" % frame, "sw ra, %d(sp)" % (frame - 4)]
+    temps = ["t0", "t1", "t2", "t3", "a1", "a2", "s0"]
+    saved_s0 = rng.random() < 0.5
+    if saved_s0:
+        L.append("sw s0, %d(sp)" % (frame - 8))
+    else:
+        temps.remove("s0")
+    lo = frame - 8 if saved_s0 else frame - 4
+    for _ in range(rng.randrange(4, 16)):
+        k = rng.random()
+        t = rng.choice(temps)
+        if k < 0.25:
+            L.append("li %s, %d" % (t, rng.choice([0, 1, 7, 93, 10, 255, 256, -1, 0x10a, 65535, -32768, 1 << 20])))
+        elif k < 0.45:
+            L.append("sw %s, %d(sp)" % (t, 4 * rng.randrange(0, lo // 4)))
+        elif k < 0.6:
+            L.append("%s %s, %d(sp)" % (rng.choice(["sb", "sh"]), t, rng.randrange(0, lo - 1)))
+        elif k < 0.8:
+            L.append("lw %s, %d(sp)" % (t, 4 * rng.randrange(0, lo // 4)))
+        elif k < 0.88:
+            L.append("%s %s, %d(sp)" % (rng.choice(["lb", "lbu", "lh", "lhu"]), t, rng.randrange(0, lo - 1)))
+        elif k < 0.94:
+            L.append("addi %s, %s, %d" % (t, rng.choice(temps), rng.randrange(-8, 9)))
+        elif k < 0.97:
+            L.append("jal g")
+        else:
+            L += ["lw a7, %d(sp)" % (4 * rng.randrange(0, lo // 4)), "ecall"]
+    if saved_s0:
+        L.append("lw s0, %d(sp)" % (frame - 8))
+    L += ["lw ra, %d(sp)" % (frame - 4), "addi sp, sp, %d" % frame, "ret",
+          "g:", "addi sp, sp, -8", "sw zero, 0(sp)", "sw a0, 4(sp)", "li t0, 99", "li t1, 98", "addi sp, sp, 8", "ret"]
+    return "\n".join(L) + "\n"
+
+
+def handler_prog(rng):
+    """programs that install an interrupt handler (utvec = CSR 5) in every spelling: csrrw / csrw / csrrwi, numeric or
+    named CSR, any rd (including rd == rs1), address loaded directly or moved through another register or the stack"""
+    h = rng.choice(["handler", "isr", "trap_"])
+    src = rng.choice(["t0", "t1", "a0", "s1"])
+    rd = rng.choice(["zero", "zero", src, "t2", "a1"])
+    csr = rng.choice(["utvec", "5", "0x5", "UTVEC", "0b101"])
+    L = ["main:", "la %s, %s" % (src, h)]
+    k = rng.random()
+    if k < 0.2:
+        other = rng.choice(["t3", "a2"])
+        L.append("mv %s, %s" % (other, src))
+        src = other
+        rd = rng.choice(["zero", src])
+    elif k < 0.3:
+        L += ["sw %s, -4(sp)" % src, "lw %s, -4(sp)" % src]
+    form = rng.random()
+    if form < 0.6:
+        L.append("csrrw %s, %s, %s" % (rd, csr, src))
+    elif form < 0.9:
+        L.append("csrw %s, %s" % (src, csr))
+    else:
+        L.append("csrrs %s, %s, %s" % (rd, csr, src))          # does not install: only csrrw/csrrwi write the vector
+    L += ["csrrsi zero, ustatus, 1", "li a7, 10", "ecall", "%s:" % h]
+    L += ["csrrw t0, uscratch, t0", "sw t1, 0(t0)", "addi t1, t1, 1", "lw t1, 0(t0)", "csrrw t0, uscratch, t0"][:rng.randrange(0, 6)]
+    L.append(rng.choice(["uret", "uret", "ret", "j %s" % h]))
+    return "\n".join(L) + "\n"
